@@ -114,6 +114,18 @@ pub fn uninstall() -> Option<RunRecord> {
     })
 }
 
+/// Hook at the places where scrut creates its directories / temporary files: lets the
+/// simulator fail the operation (ENOSPC, EACCES). Pass-through: always Ok.
+pub fn fs_fault(site: &str) -> io::Result<()> {
+    if !active() {
+        return Ok(());
+    }
+    match with_world(|w| w.fs_fault(site)).flatten() {
+        Some(errno) => Err(io::Error::from_raw_os_error(errno)),
+        None => Ok(()),
+    }
+}
+
 /// virtual now in ns (None in pass-through mode)
 pub fn virtual_now() -> Option<u64> {
     with_world(|w| w.now)
